@@ -63,6 +63,7 @@ class C17(Campaign):
     thorough_runs = 40000
     fault_kinds = ["snapshot-deepcopy@op", "snapshot-pickle@op", "snapshot-before-activation (async)",
                    "copy of a copy", "event triggers bound onto the copied model (bind_events_to)",
+                   "the model holds its machine and the MODEL is copied (model.sm <-> sm.model cycle)",
                    "listener classes with value-based __eq__/__hash__ (a copy equals its original)",
                    "snapshot-after-failed-op", "diverging suffixes, interleaved"]
     rule = ("one run = a generated machine (all option combinations rtc x allow x state_field x start_value, "
@@ -90,8 +91,10 @@ class C17(Campaign):
         if rnd.random() < 0.4:
             prog["model"]["field"] = rnd.choice(["status", "st_x"])
         prog["listener_eq"] = rnd.random() < 0.3
+        holds = prog["model"]["kind"] != "none" and rnd.random() < 0.3
         new = sc["ops"][0]
         new["custom_attr"] = True
+        new["model_holds_machine"] = holds
         # event triggers bound onto the model (bind_events_to): a copy's model must drive the copy
         new["bind_model"] = (prog["model"]["kind"] != "none") and rnd.random() < 0.35
         if rnd.random() < 0.3:
@@ -104,7 +107,8 @@ class C17(Campaign):
         r = rnd.random()
         at = 0 if r < 0.2 else rnd.randrange(0, max(1, n))
         how = rnd.choice(["deepcopy", "pickle"])
-        out = [new] + ops[:at] + [{"op": "clone", "inst": "A", "as": "B", "how": how}]
+        out = [new] + ops[:at] + [{"op": "clone", "inst": "A", "as": "B", "how": how,
+                                   "via_model": holds and rnd.random() < 0.7}]
         for op in ops[at:]:
             op = dict(op)
             op["inst"] = rnd.choice(["A", "B"])
